@@ -1322,6 +1322,8 @@ class Concatenate(CanBehaveLikeAVariable[T]):
             yield sources
             return
         all_values = defaultdict(list)
+        # the concatenation of nothing (no binding of the operand: empty domain, or only empty inner collections) is []
+        all_values[self._id_] = []
         for child_v in self._child_._evaluate__(sources):
             child_v = copy(child_v)
             for id_, val in child_v.items():
